@@ -619,6 +619,8 @@ def delete (sch : Schema) : Nat → ObjId → St → Res
         match sch.decl c, sch.decl ((sch.decl c).map (·.rev) |>.getD c) with
         | some d, some rd =>
           if d.kind != .coll then .ok st
+          else if (st.store.row o).status.isDel then .err .objectDeleted st   -- set_wrapper = attr.__get__(obj): throw_object_was_deleted
+                                                                              -- (a nested _delete_ of this object, reached through a cascade cycle, has finished)
           else
             let members := st.store.elems ((st.store.row o).items c)
             if members.isEmpty then .ok st                                   -- not set_wrapper.__nonzero__()
